@@ -90,23 +90,31 @@ type c15File struct {
 
 type c15World struct {
 	files   map[string]*c15File
-	fs      *countFS
+	fs      *countFS            // the files (shared map)
+	efs     map[string]*countFS // one counting view per long-lived engine
 	nextVer int
 	tpl     vuego.Template
 	vue     *vuego.Vue
-	// what each engine may have cached: engine -> file -> mtime -> content id
-	seen map[string]map[string]map[int64]string
+	// what each engine's template cache holds: engine -> file -> (mtime, content id).
+	// Updated when the engine re-read the file for its cache during a render.
+	held map[string]map[string]c15Held
+}
+
+type c15Held struct {
+	mtime int64
+	id    string
 }
 
 func newC15World() *c15World {
-	w := &c15World{files: map[string]*c15File{}, fs: &countFS{m: fstest.MapFS{}, opens: map[string]int{}}, seen: map[string]map[string]map[int64]string{}}
+	w := &c15World{files: map[string]*c15File{}, fs: &countFS{m: fstest.MapFS{}, opens: map[string]int{}}, held: map[string]map[string]c15Held{"tpl": {}, "vue": {}}}
 	for _, f := range c15FilesList {
 		w.files[f] = &c15File{exists: true, ver: 0, mtime: baseTime}
 	}
 	w.nextVer = 1
 	w.sync()
-	w.tpl = vuego.NewFS(w.fs)
-	w.vue = vuego.NewVue(w.fs)
+	w.efs = map[string]*countFS{"tpl": {m: w.fs.m, opens: map[string]int{}}, "vue": {m: w.fs.m, opens: map[string]int{}}}
+	w.tpl = vuego.NewFS(w.efs["tpl"])
+	w.vue = vuego.NewVue(w.efs["vue"])
 	return w
 }
 
@@ -193,42 +201,50 @@ func (c *c15Case) Run(ctx *core.Ctx) {
 				if arg == "vue" || arg == "fragment" {
 					eng = "vue"
 				}
-				before := w.fs.opens["page.vuego"]
+				cfs := w.efs[eng]
+				before := map[string]int{}
+				for _, f := range c15FilesList {
+					before[f] = cfs.opens[c15Path[f]]
+				}
 				ctx.Eval(2)
 				ctx.Transition(1)
 				got := c15Render(arg, w.tpl, w.vue)
-				if w.fs.opens["page.vuego"] == before {
-					ctx.Count("renders-answered-without-reading-the-page", 1)
+				if cfs.opens["page.vuego"]-before["page"] <= map[string]int{"tpl": 1, "vue": 0}[eng] {
+					ctx.Count("renders-answered-from-the-page-cache", 1)
 				}
 				// reference: fresh engines on the current files
 				fresh := &countFS{m: w.fs.m, opens: map[string]int{}}
 				want := c15Render(arg, vuego.NewFS(fresh), vuego.NewVue(fresh))
-				// unconstrained: the engine may hold another content under the same mtime
+				// unconstrained: the engine's cache holds other content under the very same mtime
 				unconstrained := false
 				for _, f := range c15Involved(arg) {
 					st := w.files[f]
-					if id, ok := w.seen[eng][f][st.mtime.Unix()]; ok && id != st.id() {
+					// (RenderFragment does not use the cache: it is always constrained)
+					if h, ok := w.held[eng][f]; ok && arg != "fragment" && st.exists && h.mtime == st.mtime.Unix() && h.id != st.id() {
 						unconstrained = true
 					}
 				}
 				if unconstrained {
-					ctx.Zone("edit-with-mtime-equal-to-a-cached-one")
+					ctx.Zone("edit-with-mtime-equal-to-the-cached-one")
 				} else if got != want {
 					ctx.Violation("stale-render", "entry-"+arg, c15Class(hist[:step+1]), fmt.Sprintf("history %v: long-lived engine rendered %q, fresh engine %q", hist[:step+1], clip(got, 300), clip(want, 300)))
 					lastRenderOK = false
 				}
-				// record what this engine may now hold
-				if w.seen[eng] == nil {
-					w.seen[eng] = map[string]map[int64]string{}
-				}
-				for _, f := range c15Involved(arg) {
-					if w.seen[eng][f] == nil {
-						w.seen[eng][f] = map[int64]string{}
+				// what the cache holds now (reference model of the documented cache: an entry is
+				// replaced whenever the file's mtime differs from the stored one, a failed load
+				// stores nothing, a file that is never reached is not touched)
+				if arg != "fragment" {
+					ok := func(f string) bool { return w.files[f].exists && !w.files[f].invalid }
+					upd := func(f string) {
+						st := w.files[f]
+						if h, has := w.held[eng][f]; !has || h.mtime != st.mtime.Unix() {
+							w.held[eng][f] = c15Held{st.mtime.Unix(), st.id()}
+						}
 					}
-					st := w.files[f]
-					if st.exists {
-						if _, ok := w.seen[eng][f][st.mtime.Unix()]; !ok {
-							w.seen[eng][f][st.mtime.Unix()] = st.id()
+					if ok("page") {
+						upd("page")
+						if eng == "tpl" && ok("comp") && ok("lay") {
+							upd("lay")
 						}
 					}
 				}
@@ -243,7 +259,7 @@ func (c *c15Case) Run(ctx *core.Ctx) {
 			st := w.files[f]
 			key += fmt.Sprintf("%s:%s@%d|", f, st.id(), st.mtime.Unix()-baseTime.Unix())
 		}
-		key += fmt.Sprint(w.seen)
+		key += fmt.Sprint(w.held)
 		if seenStates[key] {
 			return
 		}
@@ -287,11 +303,11 @@ func init() {
 		Level: "model_checking",
 		Rule: "explicit-state search over all histories up to the bound of {edit page/component/layout with an mtime that advances, stays equal or goes back; delete; make invalid (broken front-matter); render through Load().Render, RenderFile, Vue.Render, Vue.RenderFragment} on an in-memory file system with chosen mtimes; each history is replayed on fresh long-lived engines. " +
 			"oracle: after every render event, bytes/error equal those of newly created engines on the current files (differential, no hand-written expectation). states = distinct (file states, possibly-cached versions); a wrapping fs.FS counts reads to show that cache hits happen. non-trivial = all",
-		Bounds:      map[string]string{"quick": "histories of <=4 events over 19 event kinds", "thorough": "histories of <=6 events"},
+		Bounds:      map[string]string{"quick": "histories of <=5 events over 19 event kinds", "thorough": "histories of <=6 events"},
 		Assumptions: []string{"a render is unconstrained while an involved file has content that differs from what an engine may hold under the same mtime (documented cache limit)", "the cache only sees fs.FS, so an in-memory FS with chosen mtimes covers every answer it can get"},
 		Decode:      core.DecodeAs[c15Case](),
 		Enumerate: func(tier string, emit func(core.Case)) {
-			depth := 4
+			depth := 5
 			if tier == "thorough" {
 				depth = 6
 			}
